@@ -29,4 +29,9 @@ def run(F, tier):
     rep.findings = [f for f in rep.findings if not (f.rule == "D1" and not f.instance.startswith(("parser-new", "message_type")))]
     rep.sample({"types_with_minimum_occurrence_check": rep.rules["MO"].get("types_with_minimum")})
     accept.u6(rep, F, "parser")
+    # what the extraction primitives hand to the field parsers (and hence what an error's `value` carries)
+    accept.u7(rep, F, "parser")
+    # a parser that stops before the end of the block accepts a message whose later mandatory fields are damaged:
+    # the end-of-input check is part of enforcing the structure (shared with C01)
+    grules.g1(rep, tms)
     return rep
